@@ -3,6 +3,7 @@
 package recordio
 
 import (
+	"os"
 	"golang.org/x/exp/mmap"
 	"errors"
 
@@ -113,3 +114,47 @@ func vTraceU(comp int, k string, v uint64) {
 
 // VInstallContractCompressors is the exported entry for harnesses of other packages.
 func VInstallContractCompressors() { vInstallContractCompressors() }
+
+// ---- journalled writer: the seam through which crash images are also available natively ----
+
+type vJournalWSC struct {
+	f    *os.File
+	fs   *vrt.FS
+	path string
+	pos  int64
+}
+
+func (j *vJournalWSC) Write(b []byte) (int, error) {
+	n, err := j.f.Write(b)
+	if n > 0 {
+		j.fs.NoteWrite(j.path, j.pos, b[:n])
+		j.pos += int64(n)
+	}
+	return n, err
+}
+
+func (j *vJournalWSC) Seek(off int64, whence int) (int64, error) {
+	p, err := j.f.Seek(off, whence)
+	if err == nil {
+		j.pos = p
+	}
+	return p, err
+}
+
+func (j *vJournalWSC) Close() error { return j.f.Close() }
+
+// VJournaledWriter returns the real FileWriter for path with the given write buffer. Under the symbolic engine
+// the model file system journals every call by itself; natively the writes are reported to fs by a pass-through
+// wrapper below the real buffered writer.
+func VJournaledWriter(fs *vrt.FS, path string, comp, bufSize int) (WriterI, error) {
+	if vrt.Symbolic() {
+		return NewFileWriter(Path(path), CompressionType(comp), BufferSizeBytes(bufSize))
+	}
+	f, err := os.OpenFile(path, os.O_WRONLY|os.O_CREATE, 0666)
+	if err != nil {
+		return nil, err
+	}
+	fs.NoteCreate(path)
+	return &FileWriter{file: f, bufWriter: NewWriterBuf(&vJournalWSC{f: f, fs: fs, path: path}, make([]byte, bufSize)),
+		compressionType: comp}, nil
+}
